@@ -57,7 +57,7 @@ impl Naming {
         match self.kind {
             0 => Slot::numeric(s),
             // reversed numeric order
-            1 => Slot::numeric(900_000 - s),
+            1 => Slot::numeric(5_000_000 - s),
             // textual names, sorted like the numbers
             2 => Slot::named(&format!("a{:07}", s)),
             // textual names, sorted against the numbers
